@@ -43,8 +43,12 @@ def sub_once(text, old, new, what):
 
 
 def sub_re(text, pat, new, what, count, trace=None, rule=None, flags=0):
-    """count: exact number of sites, or None for 'at least one' (tolerant of edits that add or remove a site)"""
+    """count: exact number of sites, None for 'at least one', 'any' for 'zero or more' (tolerant of edits that add or remove a site)"""
     text, n = re.subn(pat, new, text, flags=flags)
+    if count == 'any':
+        if trace is not None and rule:
+            trace.fire(rule, n)
+        return text
     if (count is None and n == 0) or (count is not None and n != count):
         raise ExtractError('%s: %s expected %d site(s) of /%s/, found %d' % (what, rule or 'rewrite', count if count is not None else 1, pat[:50], n))
     if trace is not None and rule:
@@ -119,7 +123,8 @@ def build_pixels(f, trace):
     f = sub_re(f, r'&self\.scratch\.(\w+)\[\.\.([^\]]+)\]', r'prefix(&self.scratch.\1, \2)', q, None, trace, 'R-prefix')
     # R-chunks-find: the chunk iterator advanced once per column, then the position of the first negative sample
     f = sub_re(f, r' *let mut depth = out\.chunks\(tile_size\);\n', '', q, 1)
-    m = re.search(r'( *)let depth = depth\.next\(\)\.unwrap\(\);\n\s*let k = match depth\.iter\(\)\.enumerate\(\)\.find\(\|\(_, d\)\| \*\*d < 0\.0\) \{\s*Some\(\(i, _\)\) => i,\s*None => continue,\s*\};\n', f)
+    m = re.search(r'( *)let depth = depth\.next\(\)\.unwrap\(\);\n\s*(?:let k = match depth\.iter\(\)\.enumerate\(\)\.find\(\|\(_, d\)\| \*\*d < 0\.0\) \{\s*Some\(\(i, _\)\) => i,\s*None => continue,\s*\};'
+                  r'|let Some\(\(k, _\)\) =\s*depth\.iter\(\)\.enumerate\(\)\.find\(\|\(_, d\)\| \*\*d < 0\.0\)\s*else \{\s*continue;\s*\};)\n', f)   # the match form or the let-else form
     if not m:
         raise ExtractError('%s: R-chunks-find site changed' % q)
     # the rest of the loop body moves into the `if let`
@@ -161,7 +166,7 @@ def build_recurse(f, trace):
     f = sub_once(f, 'let base = Point3::from(tile.corner).cast::<f32>();', 'let base = cast_pt3(tile.corner);   // R-cast', q)
     f = sub_re(f, r'base\.(x|y|z) \+ tile_size as f32', r'add_f32(base.\1, cast_f32(tile_size))', q, 3, trace, 'R-fadd')
     trace.fire('R-cast', 4)
-    f = sub_re(f, r'= (self\.out\.data\[[^\]]+\]\.depth)\.max\(([^()]+)\);', r'= max_u32(\1, \2);   // R-minmax', q, None, trace, 'R-minmax')
+    f = sub_re(f, r'= (self\.out\.data\[[^\]]+\]\.depth)\.max\(([^()]+)\);', r'= max_u32(\1, \2);   // R-minmax', q, 'any', trace, 'R-minmax')
     f = r_revrange(f, 'k', 'n', q, trace)
     f = sub_re(f, r'tile\.corner\s*\+ Vector3::new\(i, j, k\) \* next_tile_size', 'pt3_add(tile.corner, vec3_scale(Vector3::new(i, j, k), next_tile_size))', q, 1, trace, 'R-opcall')
     trace.fire('R-opcall')
@@ -176,13 +181,16 @@ def build_tile(f, trace):
     trace.fire('R-imgindex', n_)
     f = sub_once(f, 'self.out = Image::new(RenderSize::from(root_tile_size as u32));', 'self.out = Image::new(voxel_size_from(root_tile_size as u32));   // R-from', q)
     trace.fire('R-from')
-    m = re.search(r'( *)for k in \(0\.\.self\.image_size\[2\]\.div_ceil\(root_tile_size as u32\)\)\.rev\(\) \{\n', f)
+    # R-ptindex / R-divceil wherever they stand (in the loop header, or in a local the bound was hoisted into), then R-revrange on the loop
+    f = sub_re(f, r'\bself\.image_size\[2\]', 'self.image_size.d', q, None, trace, 'R-ptindex')
+    f = sub_re(f, r'(self\.image_size\.d)\.div_ceil\(([^()]+)\)', r'div_ceil_u32(\1, \2)', q, None, trace, 'R-divceil')
+    m = re.search(r'( *)for k in \(0\.\.([^\n]+)\)\.rev\(\) \{\n', f)
     if not m:
         raise ExtractError('%s: slab loop header changed' % q)
     ind = m.group(1)
-    f = (f[:m.start()] + ind + 'let mut k_ = div_ceil_u32(self.image_size.d, root_tile_size as u32);   // R-ptindex, R-divceil, R-revrange\n' + ind + 'while k_ > 0\n' + ind + '{\n'
+    f = (f[:m.start()] + ind + 'let mut k_ = ' + m.group(2) + ';   // R-ptindex, R-divceil, R-revrange\n' + ind + 'while k_ > 0\n' + ind + '{\n'
          + ind + '    k_ -= 1;\n' + ind + '    let k = k_;\n' + f[m.end():])
-    trace.fire('R-revrange'); trace.fire('R-divceil'); trace.fire('R-ptindex')
+    trace.fire('R-revrange')
     # the call's value is named so that the proof can speak about it
     f = sub_once(f, 'if !self.render_tile_recurse(shape, 0, tile) {', 'let keep_ = self.render_tile_recurse(shape, 0, tile);   // R-let\n            if !keep_ {', q)
     trace.fire('R-let')
@@ -356,7 +364,7 @@ def build(repo, trace):
     inj.spec('TileSizesRef::index', 'r: &usize', '\n        requires i < self.0@.len()\n        ensures *r == self.0@[i as int]\n')
     inj.spec('TileSizesRef::get', 'r: Option<usize>', '\n        ensures i < self.0@.len() ==> r == Some(self.0@[i as int]), i >= self.0@.len() ==> r is None\n')
     inj.spec('TileSizesRef::pixel_offset', 'r: usize', '\n        requires self.0@.len() >= 1, self.0@[0] >= 1, self.0@[0] * self.0@[0] <= usize::MAX\n        ensures r == (pos.x % self.0@[0]) + (pos.y % self.0@[0]) * self.0@[0]\n')
-    inj.proof('TileSizesRef::pixel_offset', 're:let y = pos\\.y % self\\.0\\[0\\];',
+    inj.proof('TileSizesRef::pixel_offset', 're:let y = pos\\.y % [^;]*;',
               '        proof { assert(y * self.0@[0] <= (self.0@[0] - 1) * self.0@[0]) by (nonlinear_arith) requires 0 <= y < self.0@[0]; assert((self.0@[0] - 1) * self.0@[0] + self.0@[0] == self.0@[0] * self.0@[0]) by (nonlinear_arith); }')
     obls = []
     for f in ('Worker::render_tile', 'Worker::render_tile_recurse', 'Worker::render_tile_pixels', 'Worker::tile_row_offset'):
